@@ -200,7 +200,7 @@ def _alarm(signum, frame):
     raise _Timeout()
 
 
-def run_gen_coords(spec, ctx, timeout=30, kwargs_extra=None, before_build=None, on_add=None):
+def run_gen_coords(spec, ctx, timeout=15, kwargs_extra=None, before_build=None, on_add=None):
     """Runs polyply.src.gen_coords.gen_coords on the rendered spec inside ctx.dir with
     run-time wrappers that record what the properties need."""
     import polyply.src.gen_coords as gcm
